@@ -283,7 +283,7 @@ fn random(args: &[String]) -> i32 {
     for _ in 0..n {
         let d = 1 + (rand::Rng::gen_range(&mut rng, 0..depth));
         let t = tree::random_tree(&mut rng, d);
-        let sp = if rand::Rng::gen_bool(&mut rng, 0.5) { "s" } else { "t" };
+        let sp = ["s", "t", "w"][rand::Rng::gen_range(&mut rng, 0..3)];
         let text = tree::text(&t, sp);
         let mut names = tree::names(&t);
         let env0 = tree::random_env(&mut rng, &names);
